@@ -217,6 +217,11 @@ def mk_bin(op, a, b):
     if op == "Sub":
         if a[0] == "const" and b[0] == "const" and a[1] == b[1] == "int":
             return const("int", a[2] - b[2])
+        # (c + x) - c2 -> (c - c2) + x   when c >= c2
+        if b[0] == "const" and b[1] == "int" and a[0] == "add" and a[1][0] == "const" and a[1][1] == "int" and a[1][2] >= b[2]:
+            return mk_comm("add", const("int", a[1][2] - b[2]), a[2])
+        if b[0] == "const" and b[1] == "int" and b[2] == 0:
+            return a
         return ("sub", a, b)
     return (op.lower(), a, b)
 
